@@ -160,13 +160,16 @@ Theorem c19_share : forall coins total s, 0 <= coins -> 0 < total -> P18 <= s ->
 Proof. exact share_bound. Qed.
 Print Assumptions c19_share.
 
-(* the same through the farming calculation of a gauge: every reward GetFarmingRewardsData returns
-   (plain pool, or master pool with the min(master, child) rule) belongs to a farmer with an
-   eligible value and is within one part in 10^12 of coins * value / total eligible value *)
+(* the same through the farming calculation of a gauge: whenever GetFarmingRewardsData returns a
+   reward (plain pool, or master pool with the min(master, child) rule) the total eligible value is
+   positive, the reward belongs to a farmer of the pool, a farmer without eligible value (nothing
+   farmed in the child pools of a master pool) gets nothing, and the reward is within one part in
+   10^12 of coins * value / total eligible value *)
 Theorem c19_share_farm : forall e coins ps a r, farm_calc e coins = Ok ps -> In (a, r) ps -> 0 <= coins ->
   Forall (fun f => 0 <= snd f) (eligible e) ->
   let total := zsum (map snd (eligible e)) in
-  exists s, In (a, s) (eligible e) /\
+  0 < total /\
+  exists s, In (a, s) (eligible e) /\ (s = 0 -> r = 0) /\
     (P18 <= s -> kf_C19_1 coins total = false -> holds_C19_share coins total s r = true).
 Proof. exact farm_share_bound. Qed.
 Print Assumptions c19_share_farm.
